@@ -196,7 +196,7 @@ theorem pureAt_succ (p : Prog) (hp : tcheck p = .ok) (fuel : Nat) (ih : PureAt p
     simp only [Method.checkOk, Bool.and_eq_true] at hco
     rw [heff] at hpo hco h
     cases h1 : execS p fuel .pure md.body w
-        { x := x, locs := [0, 0], sargs := [(caller.slocs[0]?).join, (caller.slocs[1]?).join],
+        { x := x, vi := 0, locs := [0, 0], sargs := [(caller.slocs[0]?).join, (caller.slocs[1]?).join],
           slocs := [none, none], pal := caller.pal } with
     | none => simp [h1] at h
     | some r1 =>
@@ -242,6 +242,32 @@ theorem pureAt_succ (p : Prog) (hp : tcheck p = .ok) (fuel : Nat) (ih : PureAt p
         split at h
         · exact ih.stmt t _ fr w' fr' hpo.1.2 hco.1.2 hfr h
         · exact ih.stmt e _ fr w' fr' hpo.2 hco.2 hfr h
+    | loop c b =>
+      simp only [Stmt.parseOk, Bool.and_eq_true, decide_eq_true_eq] at hpo
+      simp only [Stmt.checkOk, Bool.and_eq_true] at hco
+      simp only [execS] at h
+      split at h
+      · cases h1 : evalE p fuel c w fr with
+        | none => simp [h1] at h
+        | some r1 =>
+          obtain ⟨v, w1⟩ := r1
+          simp only [h1] at h
+          have e1 := ih.expr c w fr v w1 hpo.1.1 hco.1 h1
+          subst e1
+          split at h
+          · cases h2 : execS p fuel .pure b w1 { fr with vi := fr.vi + 1 } with
+            | none => simp [h2] at h
+            | some r2 =>
+              obtain ⟨w2, fr2⟩ := r2
+              simp only [h2] at h
+              obtain ⟨e2, f2⟩ := ih.stmt b w1 _ w2 fr2 hpo.2 hco.2 (by simpa [PureFrame] using hfr) h2
+              obtain ⟨e3, f3⟩ := ih.stmt (.loop c b) w2 fr2 w' fr'
+                (by simp [Stmt.parseOk, hpo.1.1, hpo.1.2, hpo.2]) (by simp [Stmt.checkOk, hco.1, hco.2]) f2 h
+              exact ⟨by rw [e3, e2], f3⟩
+          · simp only [Option.some.injEq, Prod.mk.injEq] at h
+            exact ⟨h.1.symm, h.2 ▸ hfr⟩
+      · simp only [Option.some.injEq, Prod.mk.injEq] at h
+        exact ⟨h.1.symm, h.2 ▸ hfr⟩
     | setLoc x e =>
       simp only [Stmt.parseOk, Bool.and_eq_true] at hpo
       simp only [Stmt.checkOk] at hco
@@ -355,6 +381,153 @@ theorem pure_expr_no_write (p : Prog) (hp : tcheck p = .ok) (fuel : Nat) (e : Ex
     (h : evalE p fuel e w fr = some (v, w')) : w' = w :=
   (pureAt_all p hp fuel).expr e w fr v w' he hc h
 
+
+/-! ### what the rule means, declaratively
+
+`effects.md` promises: a pure function cannot assign through `this` or `args`,
+and cannot call an impure function.  `Stmt.clean` states that syntactically;
+`accepted_pure_is_clean` shows that the mirrored parser + checker rules imply
+it for every pure method of an accepted program. -/
+
+end WuffsVerif.Props.C10
+
+namespace WuffsVerif.Effects
+
+/-- every call mark in an expression, outermost first -/
+def Expr.marks : Expr → List Eff
+  | .call mk _ a => mk :: a.marks
+  | .add l r => l.marks ++ r.marks
+  | _ => []
+
+def optMarks : Option Expr → List Eff
+  | none => []
+  | some e => e.marks
+
+def SRef.marks : SRef → List Eff
+  | .sub _ lo hi => optMarks lo ++ optMarks hi
+  | _ => []
+
+/-- No store through `this` / `args`, no `copy_from_slice!`, no impure mark anywhere. -/
+def Stmt.clean : Stmt → Prop
+  | .skip => True
+  | .seq a b => a.clean ∧ b.clean
+  | .ite c t e => (∀ m ∈ c.marks, m = .pure) ∧ t.clean ∧ e.clean
+  | .loop c b => (∀ m ∈ c.marks, m = .pure) ∧ b.clean
+  | .setLoc _ e => ∀ m ∈ e.marks, m = .pure
+  | .setFld _ _ => False
+  | .setArg _ => False
+  | .setArr _ _ _ => False
+  | .setBuf s e => s.rootedAtThisOrArgs = false ∧ (∀ m ∈ s.marks, m = .pure) ∧ (∀ m ∈ e.marks, m = .pure)
+  | .bind _ s => ∀ m ∈ s.marks, m = .pure
+  | .copy _ _ _ => False
+  | .callS mk _ a => mk = .pure ∧ ∀ m ∈ a.marks, m = .pure
+
+end WuffsVerif.Effects
+
+namespace WuffsVerif.Props.C10
+open WuffsVerif.Effects
+
+theorem effect_pure_iff (e : Expr) : e.effect = .pure ↔ ∀ m ∈ e.marks, m = .pure := by
+  induction e with
+  | call mk m a ih =>
+    simp only [Expr.effect, Expr.marks, List.mem_cons, forall_eq_or_imp]
+    cases mk <;> simp [ih]
+  | add l r ihl ihr =>
+    simp only [Expr.effect, Expr.marks, List.mem_append]
+    constructor
+    · intro h
+      split at h
+      · cases h
+      · rename_i hl
+        have hl' : l.effect = .pure := by cases hle : l.effect <;> simp_all
+        intro m hm
+        rcases hm with hm | hm
+        · exact ihl.1 hl' m hm
+        · exact ihr.1 h m hm
+    · intro h
+      have hl := ihl.2 (fun m hm => h m (Or.inl hm))
+      have hr := ihr.2 (fun m hm => h m (Or.inr hm))
+      simp [hl, hr]
+  | _ => simp [Expr.effect, Expr.marks]
+
+theorem optEffect_pure_iff (o : Option Expr) : optEffect o = .pure ↔ ∀ m ∈ optMarks o, m = .pure := by
+  cases o with
+  | none => simp [optEffect, optMarks]
+  | some e => exact effect_pure_iff e
+
+theorem sref_effect_pure_iff (s : SRef) : s.effect = .pure ↔ ∀ m ∈ s.marks, m = .pure := by
+  cases s with
+  | sub f lo hi =>
+    simp only [SRef.marks, List.mem_append]
+    constructor
+    · intro h
+      obtain ⟨h1, h2⟩ := sref_effect_sub h
+      intro m hm
+      rcases hm with hm | hm
+      · exact (optEffect_pure_iff lo).1 h1 m hm
+      · exact (optEffect_pure_iff hi).1 h2 m hm
+    · intro h
+      have h1 := (optEffect_pure_iff lo).2 (fun m hm => h m (Or.inl hm))
+      have h2 := (optEffect_pure_iff hi).2 (fun m hm => h m (Or.inr hm))
+      simp [SRef.effect, h1, h2]
+  | _ => simp [SRef.effect, SRef.marks]
+
+theorem le_pure_marks {e : Expr} (h : e.effect.le .pure = true) : ∀ m ∈ e.marks, m = .pure :=
+  (effect_pure_iff e).1 (Eff.le_pure h)
+
+/-- The parser's and the checker's rules for a pure function imply the
+    syntactic promise of `effects.md`. -/
+theorem clean_of_rules (p : Prog) : ∀ (s : Stmt), s.parseOk .pure = true → s.checkOk p .pure = true → s.clean
+  | .skip, _, _ => trivial
+  | .seq a b, hp, hc => by
+    simp only [Stmt.parseOk, Bool.and_eq_true] at hp
+    simp only [Stmt.checkOk, Bool.and_eq_true] at hc
+    exact ⟨clean_of_rules p a hp.1 hc.1, clean_of_rules p b hp.2 hc.2⟩
+  | .ite c t e, hp, hc => by
+    simp only [Stmt.parseOk, Bool.and_eq_true, decide_eq_true_eq] at hp
+    simp only [Stmt.checkOk, Bool.and_eq_true] at hc
+    exact ⟨(effect_pure_iff c).1 hp.1.1.1, clean_of_rules p t hp.1.2 hc.1.2, clean_of_rules p e hp.2 hc.2⟩
+  | .loop c b, hp, hc => by
+    simp only [Stmt.parseOk, Bool.and_eq_true, decide_eq_true_eq] at hp
+    simp only [Stmt.checkOk, Bool.and_eq_true] at hc
+    exact ⟨(effect_pure_iff c).1 hp.1.1, clean_of_rules p b hp.2 hc.2⟩
+  | .setLoc _ e, hp, _ => by
+    simp only [Stmt.parseOk, Bool.and_eq_true] at hp
+    exact le_pure_marks hp.2
+  | .setFld _ _, hp, _ => by simp [Stmt.parseOk] at hp
+  | .setArg _, hp, _ => by simp [Stmt.parseOk] at hp
+  | .setArr _ _ _, hp, _ => by simp [Stmt.parseOk] at hp
+  | .setBuf s e, hp, _ => by
+    simp only [Stmt.parseOk, Bool.and_eq_true, Bool.or_eq_true, Bool.not_eq_true', decide_eq_true_eq,
+      SRef.parseOk] at hp
+    refine ⟨?_, (sref_effect_pure_iff s).1 hp.2.1, (effect_pure_iff e).1 hp.1.1.2⟩
+    rcases hp.1.1.1 with h | h
+    · exact h
+    · cases h
+  | .bind _ s, hp, _ => by
+    simp only [Stmt.parseOk, SRef.parseOk, Bool.and_eq_true, decide_eq_true_eq] at hp
+    exact (sref_effect_pure_iff s).1 hp.1
+  | .copy mk _ _, hp, hc => by
+    simp only [Stmt.parseOk, Bool.and_eq_true] at hp
+    simp only [Stmt.checkOk, Bool.and_eq_true, decide_eq_true_eq] at hc
+    have := Eff.le_pure hp.1.1
+    rw [this] at hc
+    exact absurd hc.1.1.1 (by decide)
+  | .callS mk _ a, hp, _ => by
+    simp only [Stmt.parseOk, Bool.and_eq_true, decide_eq_true_eq] at hp
+    exact ⟨Eff.le_pure hp.2, (effect_pure_iff a).1 hp.1.1⟩
+
+/-- **accepted_pure_is_clean**: in an accepted program every pure method's body
+    is clean and its result expression carries no impure mark. -/
+theorem accepted_pure_is_clean (p : Prog) (hp : tcheck p = .ok) (m : Nat) (md : Method)
+    (hm : p[m]? = some md) (hpure : md.eff = .pure) :
+    md.body.clean ∧ ∀ mk ∈ md.result.marks, mk = .pure := by
+  obtain ⟨hpo, hco⟩ := tcheck_ok_method hp hm
+  simp only [Method.parseOk, Bool.and_eq_true, decide_eq_true_eq] at hpo
+  simp only [Method.checkOk, Bool.and_eq_true] at hco
+  rw [hpure] at hpo hco
+  exact ⟨clean_of_rules p md.body hpo.1.1 hco.1, (effect_pure_iff md.result).1 hpo.1.2⟩
+
 /-! ### the rule really is needed, and the theorem is not vacuous -/
 
 /-- An accepted program with a pure and an impure method; the pure one runs. -/
@@ -363,7 +536,7 @@ def demo : Prog :=
     ⟨.impure, .seq (.setFld 0 (.call .pure 0 (.lit 5))) (.setBuf (.arg 0) (.lit 7)), .fld 0⟩ ]
 
 def demoWorld : World := ⟨[10, 20], [[1, 2, 3, 4], [5, 6, 7, 8]], [[9, 9], [0]]⟩
-def demoCaller : Frame := ⟨0, [0, 0], [none, none], [some (.buf 0), none], none⟩
+def demoCaller : Frame := ⟨0, 0, [0, 0], [none, none], [some (.buf 0), none], none⟩
 
 example : tcheck demo = .ok := by decide
 example : callM demo 20 0 3 demoCaller demoWorld = some (3, demoWorld) := by decide
@@ -404,12 +577,21 @@ example : (execS [⟨.impure, .setFld 0 (.lit 77), .lit 0⟩] 9 .pure
     (.bind 1 (.sub 0 (some (.call .impure 0 (.lit 2))) none)) demoWorld demoCaller).map (·.1.flds)
       = some [77, 20] := by decide
 
+/-- Loops: the condition is effect-free, the body obeys the same rules, and a
+    loop really iterates (three times, until the counter stops it). -/
+example : tcheck [⟨.pure, .loop .arg (.setFld 1 (.lit 5)), .lit 0⟩] = .rejectParse := by decide
+example : tcheck [⟨.impure, .setFld 0 (.lit 1), .lit 0⟩,
+    ⟨.pure, .loop (.call .impure 0 (.lit 2)) .skip, .lit 0⟩] = .rejectParse := by decide
+example : tcheck [⟨.pure, .loop (.fld 0) (.loop .arg (.setLoc 1 (.lit 5))), .loc 1⟩] = .ok := by decide
+example : (callM [⟨.impure, .loop (.lit 1) (.setFld 0 (.add (.fld 0) (.lit 1))), .lit 0⟩]
+    20 0 0 demoCaller demoWorld).map (·.2.flds) = some [13, 20] := by decide
+
 /-- Without the repair of `tcheckExprCall` (call results writable in a pure
     function: `SRef.readOnly .pure .pal = false`) the theorem would be false:
     this pure method, which the unrepaired checker accepted, writes to the
     palette buffer. -/
 example :
     (execS [] 5 .pure (.seq (.bind 0 .pal) (.setBuf (.loc 0) (.lit 1))) ⟨[], [], [[4, 4]]⟩
-      ⟨0, [], [], [none, none], some (.buf 0)⟩).map (·.1.heap) = some [[1, 4]] := by decide
+      ⟨0, 0, [], [], [none, none], some (.buf 0)⟩).map (·.1.heap) = some [[1, 4]] := by decide
 
 end WuffsVerif.Props.C10
